@@ -744,43 +744,22 @@ def count_builtin(body):
 
 def build_unit(world_files, unit, outdir):
     report = {'unit': unit, 'fns': [], 'types': [], 'linemap': []}
-    parts = []
-    canaries = []
+    main_lines = []
+    linemap = []
     for wf in world_files:
         for seg in parse_template(wf):
             if isinstance(seg, str):
-                parts.append(('raw', wf, seg))
+                main_lines.extend(seg.split('\n'))
             elif seg.kind == 'type':
-                parts.append(('type', seg, emit_type(seg, report)))
+                main_lines.extend(emit_type(seg, report).split('\n'))
             else:
-                txt, can = emit_fn(seg, unit, report, canaries)
-                parts.append(('fn', seg, txt))
-                if can:
-                    parts.append(('canary', seg, can))
-    # assemble two files: main (without canaries) and canary (with)
-    main_lines = []
-    can_lines = []
-    linemap = []
-
-    def add(target, text, tag):
-        start = len(target) + 1
-        ls = text.split('\n')
-        target.extend(ls)
-        return start, start + len(ls) - 1
-    for kind, seg, text in parts:
-        if kind == 'canary':
-            s, e = add(can_lines, text, None)
-            continue
-        if kind == 'fn':
-            s, e = add(main_lines, text, seg)
-            fname = seg.args[1] if seg.kind == 'fn' else seg.args[2]
-            linemap.append({'fn': fname, 'start': s, 'end': e, 'props': (seg.opt('props', '') or '').split(','),
-                            'proved_here': seg.opt('unit') == unit})
-            # canary file gets the stub form of every function: re-emit as stub
-            can_lines.extend(text.split('\n'))
-        else:
-            add(main_lines, text, None)
-            can_lines.extend(text.split('\n'))
+                txt, _can = emit_fn(seg, unit, report, None)
+                s = len(main_lines) + 1
+                main_lines.extend(txt.split('\n'))
+                fname = seg.args[1] if seg.kind == 'fn' else seg.args[2]
+                linemap.append({'fn': fname, 'start': s, 'end': len(main_lines),
+                                'props': (seg.opt('props', '') or '').split(','),
+                                'proved_here': seg.opt('unit') == unit})
     report['linemap'] = linemap
     os.makedirs(outdir, exist_ok=True)
     main_path = os.path.join(outdir, unit + '.rs')
@@ -822,10 +801,10 @@ def build_canary_unit(world_files, unit, outdir):
                     names.append({'fn': fname, 'start': s, 'end': len(lines)})
                 else:
                     lines.extend(txt.split('\n'))
-    path = os.path.join(outdir, unit + '.canary.rs')
+    path = os.path.join(outdir, unit + '_canary.rs')
     with open(path, 'w') as f:
         f.write('\n'.join(lines) + '\n')
-    with open(os.path.join(outdir, unit + '.canary.map.json'), 'w') as f:
+    with open(os.path.join(outdir, unit + '_canary.map.json'), 'w') as f:
         json.dump(names, f, indent=1)
     return path, names
 
